@@ -1,6 +1,8 @@
 package checks
 
 import (
+	"fmt"
+
 	"github.com/formancehq/numscript/zzverif/vm"
 )
 
@@ -137,8 +139,8 @@ func init() {
 
 	// ------------------------------------------------------------ C02
 	Register(&Check{
-		ID: "C02", Title: "every posting is a real transfer",
-		Files: apiFiles, LoadPkgs: apiLoad, InitPkgs: apiInit,
+		ID: "C02", Title: "every posting is a real transfer", PanicViolates: false,
+		Files: append(apiFiles, hf("", "zz_verif_c10.go"), hf("", "zz_verif_c11.go"), hf("", "zz_verif_c12.go")), LoadPkgs: apiLoad, InitPkgs: apiInit,
 		Cases: func(tier string) []Case {
 			var cases []Case
 			accs := []string{"a", "b"}
@@ -171,6 +173,15 @@ func init() {
 				"{ max %C from @a @a allowing overdraft up to %K @a }", "{ @a @a allowing overdraft up to %K @world }"} {
 				cases = append(cases, apiCase("C02", "repeated-account", []string{sendFixed("USD", s, "{ max %C to @d remaining to @e }")}, nil))
 				cases = append(cases, apiCase("C02", "repeated-account", []string{sendFixed("USD", s, "{ 1/2 to @d 1/2 to @e }")}, nil))
+			}
+			// account variables carrying arbitrary text
+			for _, role := range []string{"dest", "source", "kept-mix"} {
+				for n := 0; n <= 2; n++ {
+					cases = append(cases, Case{ID: fmt.Sprintf("C02 account-variable-text %s bytes=%d", role, n), Pkg: "", Fn: "ZZC02AccountText", Args: []string{role, fmt.Sprint(n), ""}, Tag: "account-variable-text"})
+				}
+				for _, t := range []string{"<kept>", "world", "a:b", "a b", ":", "a:", "é"} {
+					cases = append(cases, Case{ID: fmt.Sprintf("C02 account-variable-text %s text=%s", role, t), Pkg: "", Fn: "ZZC02AccountText", Args: []string{role, "0", t}, Tag: "account-variable-text"})
+				}
 			}
 			cases = append(cases, apiCase("C02", "two-assets", []string{"send [EUR *] (\n source = { @a @b }\n destination = { max [EUR 3] to @d remaining kept }\n)", sendFixed("USD", "{ @b @a }", "{ 1/2 to @d 1/2 to @e }"), "send [EUR *] (\n source = @d\n destination = @a\n)"}, nil))
 			cases = append(cases, apiCase("C02", "two-assets", []string{sendFixed("USD", "@a", "@d"), "send [EUR *] (\n source = @a\n destination = @e\n)"}, nil))
